@@ -1656,6 +1656,8 @@ func (p *Parser) evaluateSwitch(ctx context) (Statement, error) {
 
 	if switchExprValueType.IsSlice() {
 		return nil, p.atError("slices are not allowed in switch statements", exprToken)
+	} else if dataType := switchExprValueType.DataType(); dataType == DATA_TYPE_UNKNOWN || dataType == DATA_TYPE_MULTIPLE {
+		return nil, p.expectedError("single value in switch statement", exprToken)
 	}
 	beginToken := p.eat()
 
